@@ -381,9 +381,9 @@ PROPS["C19"] = {
     "modules": ["SlogModel.Props.C19"],
     "components": [("agent-c19", 100, 800), ("buffer", 150, 2500), ("route", 1500, 30000), ("client", 300, 5000)],
     "rule": 'one case = one end-to-end run of the real agent in process (run.NewLoaderFromConfigFile -> StartOrchestrator -> LaunchInputs: TCP syslog input, extractions, transforms incl. a 100% drop filter, byKeySet orchestration, hybrid buffer, Fluentd Forward output in one of the three message modes) against a scripted fake upstream (per connection attempt: close at once / reset after k chunks / never ACK / late ACK / unknown-id ACK / healthy), 1-3 generations of graceful stop + restart on one queue directory, 1-3 client connections x 10-90 stamped records over 1-3 key sets with malformed and filtered records mixed in, stop after 0-100 ms, upstream session age 0/20/50/150 ms; all timeouts scaled to 10 ms - 2 s; the last generation ends with a healthy upstream; distinct by script; all non-trivial',
-    "level_text": "C19_buffer_balance (pending = inputs - consumed - leftover - dropped in every reachable state of the buffer model), C19_dropped_counts_drops / C19_consumed_counts_confirms (the counters are exactly the drops / confirmations the conservation theorem speaks of), C19_shutdown_balance (accepted + recovered = consumed + dropped + kept), C19_input_counted_once (from C09); over every run of the client transition system: C19_client_acknowledged_counts_confirmations (acknowledged_chunks_total = number of chunks reported delivered, all distinct), C19_client_acknowledged_le_forwarded (every acknowledged chunk was counted as forwarded before; acknowledged <= forwarded, forwarded = complete transmissions incl. retransmissions), C19_client_balance (taken = acknowledged + handed back + still held); two facts (client metric call sites, pending gauge in every On* callback). Tie: C03's state comparison covers every buffer counter after every operation; the client component compares the real client's forwarded / acknowledged counters with Client.forwardedN / acknowledgedN of the accepted run (client tracem) and with what the scripted upstream received; the end-to-end harness compares the summed counters of real runs with its own event counts (lines sent = input passed + dropped, malformed = input dropped, input passed = pipeline passed + dropped, filtered = pipeline dropped, consumed = distinct chunks acknowledged by the upstream = output acknowledged).",
+    "level_text": "C19_buffer_balance (pending = inputs - consumed - leftover - dropped in every reachable state of the buffer model), C19_dropped_counts_drops / C19_consumed_counts_confirms (the counters are exactly the drops / confirmations the conservation theorem speaks of), C19_shutdown_balance (accepted + recovered = consumed + dropped + kept), C19_input_counted_once (from C09); over every run of the client transition system: C19_client_acknowledged_counts_confirmations (acknowledged_chunks_total = number of chunks reported delivered, all distinct), C19_client_acknowledged_le_forwarded (every acknowledged chunk was counted as forwarded before; acknowledged <= forwarded, forwarded = complete transmissions incl. retransmissions), C19_client_balance (taken = acknowledged + handed back + still held); C19_labelled_counter_counts_its_records (for every record sequence the increments that went to the counter set labelled t are the records whose metric key values are t: from the length-prefixed merge being injective, C06); two facts (client metric call sites, pending gauge in every On* callback). Tie: C03's state comparison covers every buffer counter after every operation; the client component compares the real client's forwarded / acknowledged counters with Client.forwardedN / acknowledgedN of the accepted run (client tracem) and with what the scripted upstream received; the end-to-end harness compares the summed counters of real runs with its own event counts (lines sent = input passed + dropped, malformed = input dropped, input passed = pipeline passed + dropped, filtered = pipeline dropped, consumed = distinct chunks acknowledged by the upstream = output acknowledged).",
     "level_note": 'Trusted: Lean kernel + 3 standard axioms. PARTIAL: byte counters of the client and label attribution are tied by facts, the byte-exact client oracle and the end-to-end comparison, not modelled.',
-    "partial": 'client byte counters and labelled counters not modelled (chunk counters are)',
+    "partial": 'client byte counters not modelled (chunk counters and label attribution are)',
     "assumptions": ["the composition of component contracts in E2E.step matches how the components are wired (read from orchestrate/, buffer/, output/)"],
 }
 
